@@ -88,7 +88,7 @@ def _check_timestamps(fields, values):
     if _obs(rec) != before:
         return "the original record was modified"
     if not dts:
-        return None if (len(out) == 1 and out[0] is rec) else "a record without timestamp fields must be yielded as it is"
+        return None if (len(out) == 1 and (out[0] is rec or _obs(out[0]) == before)) else "a record without timestamp fields comes out changed (or not exactly once)"
     if len(out) != len(dts):
         return f"{len(dts)} timestamp fields, {len(out)} records"
     for n, o in zip(dts, out):
